@@ -306,7 +306,7 @@ func init() {
 	register(&Check{
 		ID:     "C18",
 		Level:  "fault_enumeration",
-		Rule:   "a small node is built deterministically (two indexes x two rotated log segments x 2-3 blocks, dictionary and plain columns, block summaries, micro-indexes, segment stats, rollups; one rotated metrics segment with tags tree) and shut down; then for a file of a segment one damage is applied (truncate to length n, or set byte i to a flipped bit / 0x00 / 0xFF), a fresh process boots on the tree and a fixed suite of 13 queries runs (incl. a time range cutting through every block and a timechart). Oracle per query: every returned row equals the undamaged row (nothing invented, nothing altered); rows may be missing only from queries that touch the damaged file and only with a reported error; no crash, no hang, start-up succeeds. thorough: every length and every byte x 3 of every segment file until the time budget (exhaustive flag only if all were run); quick: all bytes of the first 24 bytes of each file + a stratified sample. distinct = (file, damage); non-trivial = the damaged file is read by at least one suite query",
+		Rule:   "a small node is built deterministically (two indexes x two rotated log segments x 2-3 blocks, dictionary and plain columns, block summaries, micro-indexes, segment stats, rollups; one rotated metrics segment with tags tree) and shut down; then for a file of a segment one damage is applied (truncate to length n, or set byte i to a flipped bit / 0x00 / 0xFF), a fresh process boots on the tree and a fixed suite of 13 queries runs (incl. a time range cutting through every block and a timechart); in every fourth case the damage is applied to the live node instead - the suite runs on the intact files, the file changes under the running process (`damage_file`), the suite runs again. Oracle per query: every returned row equals the undamaged row (nothing invented, nothing altered); rows may be missing only from queries that touch the damaged file and only with a reported error; no crash, no hang, start-up succeeds. thorough: every length and every byte x 3 of every segment file until the time budget (exhaustive flag only if all were run); quick: all bytes of the first 24 bytes of each file + a stratified sample. distinct = (file, damage); non-trivial = the damaged file is read by at least one suite query",
 		Run:    runC18,
 		Oracle: func(res *RunResult) []Violation { return damageOracle("C18", res) },
 		Assumptions: []string{
@@ -435,8 +435,29 @@ func runC18(c *Ctx) {
 		c.Parallel(len(dmgs), 0, func(j int) {
 			d := dmgs[j]
 			p := base.Clone()
+			cleanFor := clean
+			live := j%4 == 3
+			if live {
+				// bit rot under a running server: the suite runs on the intact files first (whatever the node
+				// verified or cached then), the medium changes, the suite runs again. Both passes are judged against
+				// the undamaged answers.
+				d.BeforeInc = -1 // not applied at start-up
+				suite := p.Incs[1].Ops
+				ops := append([]plan.Op(nil), suite...)
+				ops = append(ops, plan.Op{Kind: "damage_file", Args: map[string]any{"file": d.File, "op": d.Op, "at": d.At, "val": d.Val}})
+				ops = append(ops, suite...)
+				p.Incs[1].Ops = ops
+				cleanFor = map[string]map[string]string{}
+				for k, v := range clean {
+					cleanFor[k] = v
+					var oi int
+					if _, err := fmt.Sscan(k, &oi); err == nil {
+						cleanFor[fmt.Sprint(len(suite)+1+oi)] = v
+					}
+				}
+			}
 			p.Params["damage"] = []Damage{d}
-			p.Params["clean"] = clean
+			p.Params["clean"] = cleanFor
 			p.Note = fmt.Sprintf("node %d damage %+v", nd, d)
 			res, err := RunPlan(p, genericBetween)
 			if err != nil || harnessTrouble(res) != "" {
@@ -452,7 +473,11 @@ func runC18(c *Ctx) {
 				sample = map[string]any{"node": nd, "damage": d, "file_kind": fileKindDamage(d.File)}
 			}
 			done++
-			c.faultCounts["file_damage:"+d.Op]++
+			if live {
+				c.faultCounts["file_damage_while_running:"+d.Op]++
+			} else {
+				c.faultCounts["file_damage:"+d.Op]++
+			}
 			c.mu.Unlock()
 			c.Account(res, fmt.Sprintf("n%d-%s-%s-%d-%d", nd, d.File, d.Op, d.At, d.Val), true, sample)
 			c.Probe("damage@"+fileKindDamage(d.File), 1)
